@@ -19,7 +19,7 @@ PROP = {
         "convergence is proved only for a peer that holds the author's document (no concurrent edit): in general it is FALSE (F-C15-reuse-concurrent)",
         "GC: the model has no purge; the GC half of redo_gc_witness lives in the minimal fragment Model/UndoGc.lean (objects), GC-on histories are otherwise covered by the implementation oracle only after the first purge that matters",
         "GC-on stream uses the object/counter alphabets only (array tombstone purges are C03's known findings)",
-        "the single-replica re-identification defect (F-C14-array-reid) also occurs inside two-client histories; it is listed for this property as F-C15-array-reid",
+        "the single-replica re-identification defect (former F-C14-array-reid / F-C15-array-reid) is repaired (868855dc); S7 (collecting the tombstone of a re-identified container) is a regression trace in corpus/C15",
         "in GC-on traces removed members of objects are not compared in the structural dump of restored values (a replica may or may not have purged them)",
     ],
     "not_modelled": ["server/packs (real push-pull), snapshots", "presence"],
